@@ -363,9 +363,66 @@ def run_routes(case):
   return routes_agree(case[0], f, spec, canon)
 
 
+# ----------------------------------------- several WavStreams alive at once
+def gen_interleaved(run):
+  for wa in (1, 2, 3, 4):
+    for wb in (1, 2, 3, 4):
+      for cha in (1, 2):
+        for chb in (1, 2):
+          for keep in (False, True):
+            for order in ("alternate", "two-one", "a-then-b"):
+              yield (wa, cha, wb, chb, keep, order)
+
+
+def run_interleaved(case):
+  """Two files decoded by two WavStream objects that are alive together and read alternately (mixing
+  two files): each still yields exactly its own stored integers."""
+  wa, cha, wb, chb, keep, order = case
+  def build(width, channels, tag):
+    base = sample_sets(width, "quick")[0]
+    n = 6 * channels
+    samples = [base[(i * 5 + tag * 3) % len(base)] for i in range(n)]
+    path = os.path.join(tmpdir(), "il_%s_%d_%d_%d.wav" % (tag, width, channels, os.getpid()))
+    w = wave.open(path, "wb")
+    w.setnchannels(channels); w.setsampwidth(width); w.setframerate(8000)
+    w.writeframes(b"".join(samples))
+    w.close()
+    ints = [int.from_bytes(s_, "little", signed=(width > 1)) for s_ in samples]
+    if not keep:
+      d = 1 << (8 * width - 1)
+      ints = [((v - 128) if width == 1 else v) / d for v in ints]
+    return path, ints
+  pa, ea = build(wa, cha, 1)
+  pb, eb = build(wb, chb, 2)
+  try:
+    sa, sb = WavStream(pa, keep=keep), WavStream(pb, keep=keep)
+    ia, ib = iter(sa), iter(sb)
+    ga, gb = [], []
+    if order == "a-then-b":
+      ga, gb = list(ia), list(ib)
+    else:
+      step_a = 2 if order == "two-one" else 1
+      while len(ga) < len(ea) or len(gb) < len(eb):
+        for _ in range(step_a):
+          if len(ga) < len(ea): ga.append(next(ia))
+        if len(gb) < len(eb): gb.append(next(ib))
+      ga += list(ia); gb += list(ib)
+  except Exception as exc:
+    return bad("wav:interleaved:exception:" + type(exc).__name__, "reading two WavStreams alternately raised", None, str(exc)[:200], True)
+  finally:
+    for p_ in (pa, pb):
+      if os.path.exists(p_):
+        os.unlink(p_)
+  if ga != ea or gb != eb:
+    return bad("wav:interleaved", "two WavStreams alive together and read alternately must each yield their own samples",
+               {"a": ea[:6], "b": eb[:6]}, {"a": ga[:6], "b": gb[:6]}, True)
+  return R(None, True, (wa, wb, order))
+
+
 KINDS = OrderedDict([
   ("wav", Kind(gen_wav, run_wav, chunk=4, rule="WAV files x reading configurations; non-trivial: a sample with the sign bit set")),
   ("chunks", Kind(gen_chunks, run_chunks, chunk=200, rule="chunks configurations; non-trivial: padding needed or non-native byte order")),
   ("call-routes", Kind(gen_routes, run_routes, chunk=1,
                        rule="each function with every documented parameter set: all positional / all keyword / every split must agree")),
+  ("interleaved", Kind(gen_interleaved, run_interleaved, chunk=8, rule="pairs of (width, channels) files x keep x reading order; two streams alive together")),
 ])
